@@ -326,8 +326,15 @@ def run(chk):
     chk.floor('datatype constructor chains', n, 15)
     # every class bound in some BASE_DATATYPES that has a max_length reaches the guard
     guard_fn = ix.func('base_datatypes.BaseDataType.__init__')
-    ok = any(isinstance(x, ast.Raise) and 'MaxLengthReached' in norm(x) for x in own_nodes(guard_fn.node)) and \
-        'is_strict' in ' '.join(forwarding.branch_context(x) for x in own_nodes(guard_fn.node) if isinstance(x, ast.If))
+    mlr = [x for x in own_nodes(guard_fn.node) if isinstance(x, ast.Raise) and 'MaxLengthReached' in norm(x)]
+    ok = False
+    if mlr:
+        g3 = cfg_of(guard_fn)
+        paths3 = []
+        for x in mlr:
+            paths3 += pathcond.conditions(g3, g3.node_for(x))
+        # every path to the refusal passed `is_strict(...)` with outcome true (what it measures is rule C13-M)
+        ok = pathcond.every_path_requires(paths3, lambda t, pol: pol and isinstance(t, ast.Call) and 'is_strict' in norm(t.func))
     chk.ob('C05-M', 'BaseDataType.__init__ raises MaxLengthReached under STRICT', ok, '', guard_fn.loc, key='C05-M|guard')
 
 
